@@ -130,9 +130,9 @@ def execAssign (B : Build) (regs : List (String × Ext)) (dst op : String) (args
   | "h2c", [h1, h2] =>
     match parseFe fqP h1, parseFe fqP h2 with
     | some r1, some r2 =>
-      match elligator B.sr B.zeta r1, elligator B.sr B.zeta r2 with
-      | some e1, some e2 => put (B.add e1 e2)
-      | _, _ => .error "panic"
+      match hashToCurve B.sr B.zeta B.add r1 r2 with
+      | some e => put e
+      | none => .error "panic"
     | _, _ => .error "bad-op"
   | "frb", [h] =>
     match parseHex h with
